@@ -92,6 +92,12 @@ def weight_cases(draw):
                         st.integers(-2, max(npts - 1, 0))))
     hi = draw(st.one_of(st.sampled_from(["nat", "nat", "inf"]),
                         st.integers(lo if isinstance(lo, int) else -2, max(npts, 1))))
+    if rel and not degenerate and draw(st.integers(0, 11)) == 0:
+        # width * nsigmas == 1 exactly and the natural lower limit: the first grid point is exactly 0, ON the limit
+        # (limits are closed: the point takes part; for lognormal/Schulz it lies outside the support)
+        width, nsig = draw(st.sampled_from([(0.5, 2.0), (1.0, 1.0), (0.25, 4.0), (0.125, 8.0)]))
+        center = float(draw(st.sampled_from([1.0, 8.0, 50.0, 300.0])))
+        lo = "nat"
     return {"kind": kind, "rel": rel, "npts": npts, "nsigmas": nsig, "center": center,
             "width": width, "lo": lo, "hi": hi}
 
@@ -151,7 +157,14 @@ def check_weights(case, rec):
         r3 = abs(sigma) * math.sqrt(3.0)
         keep &= np.abs(grid - c_eff) <= r3
         near |= np.abs(np.abs(grid - c_eff) - r3) <= 1e-9 * span
-    ambiguous = bool(np.any(near))
+    # an end point of the grid that EQUALS a limit is not ambiguous (both sides compute centre -/+ half width
+    # without further rounding): the limits are closed, it takes part
+    exact_end = np.zeros(len(grid), bool)
+    for k in (0, len(grid) - 1):
+        if len(grid) and grid[k] in (lo_eff, hi_eff):
+            exact_end[k] = True
+            rec.cls("grid-end-exactly-on-limit")
+    ambiguous = bool(np.any(near & ~exact_end))
     expected = grid[keep]
     ncut = int(n_eff - len(expected))
     rec.cls("cut:none" if ncut == 0 else ("cut:all" if len(expected) == 0 else "cut:some"))
